@@ -20,7 +20,7 @@ EXTENDS Integers, Sequences, FiniteSets, TLC
 CONSTANTS Mode, L
 
 \* ---- part 1 ----
-Syms == <<"dq", "sq", "bs", "hash", "lf", "cr", "tab", "lparen", "n", "u", "x", "a", "eacute", "emoji", "nul", "del", "xff">>
+Syms == <<"dq", "sq", "bs", "hash", "lf", "cr", "tab", "lparen", "n", "u", "x", "a", "eacute", "emoji", "nul", "del", "xff", "repl">>
 NSym == Len(Syms)
 Forms == [kind : {"string", "bytes"},
           ml : {"single", "tabs1", "opt-tabs1", "tabs0"},
